@@ -26,7 +26,8 @@ RULE = ("sweep: each of the 128 ASCII code points and 24 chosen non-ASCII scalar
         "sweep (messages of n plain bytes followed by an escaped character, plain messages and two-piece messages "
         "for n = 0..2299 (thorough 3399) [quick: the ~105 lengths around every multiple of 128]) so that every byte offset of the "
         "line is the end of some writer call. For records with MDC entries the encode is repeated into a sink that "
-        "refuses exactly one write call, for every position of that call: an Ok result must come with the complete line. "
+        "refuses exactly one write call, for every position of that call (WouldBlock / Interrupted alternating): an Ok result must come with the complete line, an interrupted call must not fail the encode. "
+        "MDC maps of 15 .. 4097 (thorough 8193) entries (counts at and around every power of two, 768, 3 x 256). "
         "non-trivial = some string contains a byte that must be escaped "
         "(quote, backslash, < 0x20); distinct = distinct case line")
 ASSUMPTIONS = [
@@ -149,6 +150,12 @@ def cases(rng, tier):
     for block in ([8192, 16384] if tier == "quick" else [4096, 8192, 16384, 32768]):
         for L in range(block - 230, block - 110):
             out.append(mk(3, ["m" * (L // 2), "n" * (L - L // 2)], target="t"))
+    # 3e. wide MDC maps: entry counts at and around every power of two up to 2^12 (thorough 2^13; the extracted model's
+    # non-tail-recursive list functions set the limit) (any counter or size hint narrower
+    # than the map shows at its wrap-around), twice 256 and 3 x 256 as well; short distinct keys
+    for n in ([15, 16, 17, 127, 128, 129, 255, 256, 257, 511, 512, 513, 768, 1024, 4095, 4096, 4097] if tier == "quick" else
+              sorted(set([b + d for b in (16, 32, 64, 128, 256, 512, 768, 1024, 1280, 2048, 4096, 8192) for d in (-1, 0, 1)]))):
+        out.append(mk(3, ["wide"], target="t", mdc=[("k%x" % i, "%d" % (i % 10)) for i in range(n)]))
     # 3c. the MDC entries are inserted by the MESSAGE while it is formatted (10th element 1; empty history as 9th)
     for _ in range(150 if tier == "quick" else 2000):
         base = rng.choice(out)
@@ -317,8 +324,10 @@ def judge(c, iv, mv):
     """('ok', None) | ('fail', text): the property fails on this case | ('corr', text): the line still
     denotes exactly the record but its bytes are not the model's (e.g. members reordered)"""
     if isinstance(iv, list) and len(iv) == 4 and isinstance(iv[3], int) and iv[3] > 0:
-        return ("fail", "a sink that refuses ONE write call (WouldBlock): for %d position(s) of the refused call encode "
-                        "returned Ok although what it wrote is not the record's line" % iv[3])
+        return ("fail", "a sink that refuses ONE write call (WouldBlock at every other position, an interrupted call - which "
+                        "io::Write users restart - at the others): for %d position(s) of the refused call encode returned Ok "
+                        "although what it wrote is not the record's line, or returned an error although the call was only "
+                        "interrupted" % iv[3])
     if not (isinstance(iv, list) and len(iv) == 3 and isinstance(iv[0], bytes)):
         return ("fail", "encode failed or panicked: %r" % (iv,))
     out, tid, order = iv
